@@ -8,6 +8,8 @@ from harness import clientlib as cl
 from harness import histgen
 from harness.callreg import invocations
 
+WIDE = 200000        # thorough tier: histories of the wide correspondence stream (widegen.py), judged by the model and the generic rule
+WIDE_QUICK = 2000
 PROP = 'C09'
 EXHAUSTIVE = False
 RULE = ('systematic: every modelled entry point x wait_nrc x 12 reply kinds inside a block then the same call after the block; '
